@@ -235,6 +235,19 @@ def check(ctx, build=None):
                 found = True
                 ctx.violation("counterexample", "K4: a witness program that is not a listed known finding fails", {"proto": "k4-witness", "file": path, "functions": bad},
                               expected="equal results", observed=r["mismatches"][:3])
+        # ---- shapes at the edge of repaired guards: rejected, or accepted and faithful (findings/C01-reject-or-faithful/*.go)
+        for path in sorted(glob.glob(os.path.join(FINDINGS + "-reject-or-faithful", "*.go"))):
+            files, calls = witness_package(path)
+            r = k4.run_package(files, calls, os.path.join(scratch, "rf"))
+            stats["reject_or_faithful_functions"] += len(calls)
+            stats["reject_or_faithful_rejected"] += len(r["rejected"])
+            bad = [m for m in r["mismatches"]]
+            if (bad or r["parse_error"]) and not found:
+                found = True
+                ctx.violation("counterexample", "K4: a function at the edge of a repaired guard is accepted and its translation does not return what Go returns",
+                              {"proto": "k4-witness", "file": path, "function": bad[0]["fn"] if bad else "<parse>", "go_source": k4.func_source(files, bad[0]["fn"]) if bad else None,
+                               "emitted": k4.emitted_def(r["text"], bad[0]["fn"]) if bad else None},
+                              expected={"go": bad[0]["go"]} if bad else "well-formed output", observed={"gooselang": bad[0]["gl"]} if bad else r["parse_error"])
         # ---- the command re-translating over an older output file must leave exactly the new translation
         found = gomod.retranslate_stream(ctx, scratch, "the emitted file is not the translation of the current source", found)
     finally:
